@@ -203,6 +203,30 @@ class SimFS:
         return io.BytesIO(self.files[path])
 
 
+class FaultyWriter:
+    """Wraps a real file object that the library hands to torch.save: write() raises ENOSPC at the planned index,
+    everything else is delegated."""
+
+    def __init__(self, fs, f, fail_at):
+        self._fs = fs
+        self._f = f
+        self._fail_at = fail_at
+        self.nwrites = 0
+        self.failed = False
+
+    def write(self, b):
+        i = self.nwrites
+        self.nwrites += 1
+        if self._fail_at is not None and i == self._fail_at:
+            self.failed = True
+            self._fs.stats['fault.write_error'] = self._fs.stats.get('fault.write_error', 0) + 1
+            raise OSError(errno.ENOSPC, 'No space left on device (simulated)')
+        return self._f.write(b)
+
+    def __getattr__(self, name):
+        return getattr(self._f, name)
+
+
 class StorageProxy:
     """Stands in for the name `tn` inside torchtt._extras: every attribute is
     torch's, except save/load, which route *string paths* to the SimFS and
@@ -221,6 +245,16 @@ class StorageProxy:
                 return torch.save(obj, sf, *a, **k)
             finally:
                 self._fs.commit(sf)
+        if not isinstance(f, SimFile) and hasattr(f, 'write') and getattr(self._fs, 'wrap_file_objects', False):
+            # a real file object opened by the library itself (os.fdopen of a mkstemp descriptor, ...): the planned
+            # write fault is injected here, the bytes go to the real file
+            self._fs.stats['probe.real_file_object_wrapped'] = self._fs.stats.get('probe.real_file_object_wrapped', 0) + 1
+            w = FaultyWriter(self._fs, f, self._fs.next_fail)
+            self._fs.next_fail = None
+            try:
+                return torch.save(obj, w, *a, **k)
+            finally:
+                self._fs.last_nwrites = w.nwrites
         return torch.save(obj, f, *a, **k)
 
     def load(self, f, *a, **k):
